@@ -971,9 +971,20 @@ func runListen(network string) (out string) {
 		}
 		addr := probe.LocalAddr().String()
 		probe.Close()
-		var starts int32
+		var starts, pairStarts int32
+		release := make(chan struct{})
 		srv := &radius.PacketServer{Addr: addr, SecretSource: radius.StaticSecretSource(secret), ErrorLog: log.New(io.Discard, "", 0),
 			Handler: radius.HandlerFunc(func(w radius.ResponseWriter, r *radius.Request) {
+				if string(r.Get(1)) == "pair" {
+					// (the two-peers phase below: the handler stays in flight until both peers' requests have been seen)
+					atomic.AddInt32(&pairStarts, 1)
+					select {
+					case <-release:
+					case <-time.After(8 * time.Second):
+					}
+					w.Write(r.Response(radius.CodeAccessAccept))
+					return
+				}
 				atomic.AddInt32(&starts, 1)
 				w.Write(r.Response(radius.CodeAccessAccept))
 			})}
@@ -1019,6 +1030,15 @@ func runListen(network string) (out string) {
 			}
 		}
 		client.Close()
+		// Two peers on ONE host (same IP, different source ports) send a request with the SAME identifier while the
+		// first one's handler is still running: the source addresses differ, so both are served (real UDP addresses;
+		// the lab's conns hand out addresses of their own type).  Nothing is resent: each datagram is sent once.
+		pair := "-"
+		if !early && reply != "none" {
+			pair = runListenPair(addr, secret, &pairStarts, release)
+		} else {
+			close(release)
+		}
 		if early && attempt < 3 {
 			ctx, cancel := context.WithTimeout(context.Background(), time.Second)
 			srv.Shutdown(ctx)
@@ -1042,8 +1062,51 @@ func runListen(network string) (out string) {
 		if atomic.LoadInt32(&starts) >= 1 {
 			handled = "yes"
 		}
-		return fmt.Sprintf("reply=%s handled=%s shutdown=%s ret=%s", reply, handled, down, r)
+		return fmt.Sprintf("reply=%s handled=%s pair=%s shutdown=%s ret=%s", reply, handled, pair, down, r)
 	}
+}
+
+// runListenPair: see runListen.  Returns "<handlers started>:<authentic replies>" ("2:2" when both peers are served).
+func runListenPair(addr string, secret []byte, pairStarts *int32, release chan struct{}) string {
+	released := false
+	defer func() {
+		if !released {
+			close(release)
+		}
+	}()
+	var conns [2]net.Conn
+	var wires [2][]byte
+	for k := range conns {
+		c, err := net.Dial("udp4", addr)
+		if err != nil {
+			return "HARNESS-dial:" + err.Error()
+		}
+		defer c.Close()
+		conns[k] = c
+		req := &radius.Packet{Code: radius.CodeAccessRequest, Identifier: 250, Secret: secret}
+		copy(req.Authenticator[:], bytes.Repeat([]byte{byte(0x70 + k)}, 16))
+		req.Add(1, radius.Attribute("pair"))
+		wires[k], _ = req.Encode()
+	}
+	for k := range conns {
+		conns[k].Write(wires[k])
+		// (the first peer's handler is in flight before the second peer sends; then up to five seconds for the second)
+		for t := time.Now().Add(5 * time.Second); time.Now().Before(t) && atomic.LoadInt32(pairStarts) < int32(k+1); {
+			time.Sleep(2 * time.Millisecond)
+		}
+	}
+	started := atomic.LoadInt32(pairStarts)
+	close(release)
+	released = true
+	authentic := 0
+	buf := make([]byte, 4096)
+	for k := range conns {
+		conns[k].SetReadDeadline(time.Now().Add(1500 * time.Millisecond))
+		if n, err := conns[k].Read(buf); err == nil && radius.IsAuthenticResponse(buf[:n], wires[k], secret) && buf[0] == byte(radius.CodeAccessAccept) {
+			authentic++
+		}
+	}
+	return fmt.Sprintf("%d:%d", started, authentic)
 }
 
 // ---- a server without Handler / without SecretSource: Serve and ListenAndServe refuse at once (an error, no
